@@ -27,4 +27,15 @@ SPECS = {
         floor=0.30,
         rule="AOL machine; after every commit counters and complete paging walks (key/offset style, many limits, both directions, count_total on/off) equal the model; non-trivial = >=3 topics, a writer deleted and a multi-page walk",
         assumptions=MACHINE_ASSUME),
+    "C03": dict(units=[machine("TestC03", 640, 12000, steps=30)], floor=0.40, rule=None, assumptions=MACHINE_ASSUME),
+    "C04": dict(units=[machine("TestC04", 640, 12000, steps=30)], floor=0.40, rule=None, assumptions=MACHINE_ASSUME),
+    "C05": dict(units=[machine("TestC05", 560, 9000, steps=32)], floor=0.30, rule=None, assumptions=MACHINE_ASSUME),
+    "C11": dict(units=[machine("TestC11", 640, 9000, steps=24)], floor=0.60, rule=None, assumptions=MACHINE_ASSUME),
+    "C06": dict(units=[machine("TestC06", 640, 12000, steps=34)], floor=0.35, rule=None, assumptions=MACHINE_ASSUME),
+    "C12": dict(units=[machine("TestC12", 560, 10000, steps=34)], floor=0.30, rule=None, assumptions=MACHINE_ASSUME),
+    "C08": dict(units=[machine("TestC08", 400, 6000, steps=34)], floor=0.40, rule=None, assumptions=MACHINE_ASSUME),
+    "C15": dict(units=[machine("TestC15", 640, 12000, steps=30)], floor=0.50, rule=None, assumptions=MACHINE_ASSUME),
 }
+
+# rules for machine checks are stated once, in the Go registry; `bin/check` asks the test
+# binary for them (TestRules) so that the text in the evidence is the text next to the code.
